@@ -545,6 +545,10 @@ func (s *Sim) checkAppTx(t *txCtx, changed bool) {
 				s.violate("C28", "transfer-by-non-application", "transfer", fmt.Sprintf("height %d: transfer id %d signed by %s, which is not a staked application, changed application records %v", h, rec.Step.ID, old, touched))
 				return
 			}
+			if prevRec, hadRecord := t.vb.Apps[named]; hadRecord && named != old {
+				s.violate("C28", "transfer-onto-existing-application", fmt.Sprintf("target-status-%d", prevRec.Status), fmt.Sprintf("height %d: transfer id %d %s -> %s took effect although %s already had an application record (status %d, stake %s), which it overwrote", h, rec.Step.ID, old, named, named, prevRec.Status, prevRec.StakedTokens))
+				return
+			}
 			if !nowApp || oldStill {
 				s.violate("C28", "transfer-incomplete", "transfer", fmt.Sprintf("height %d: transfer id %d %s -> %s: new record present %v, old record still present %v", h, rec.Step.ID, old, named, nowApp, oldStill))
 				return
